@@ -530,6 +530,7 @@ type Summary struct {
 	AssertsOK     map[string]int
 	AssertsSeen   map[string]int
 	Findings      []Finding
+	FindingCounts map[string]int // per obligation / panic site: how many paths reached it failing
 	Unknown       []string
 	Instrs        int64
 	Queries       int
@@ -597,7 +598,18 @@ func (e *Engine) Explore(fn *ssa.Function, workers []*Worker, opts ExploreOpts) 
 				for k, v := range res.AssertsSeen {
 					sum.AssertsSeen[k] += v
 				}
-				sum.Findings = append(sum.Findings, res.Findings...)
+				// at most three counterexamples are kept per failing obligation / panic site: exploration goes on,
+				// so that one defect reached by many paths does not hide another
+				for _, f := range res.Findings {
+					key := f.Kind + "|" + f.Label + "|" + f.Detail
+					if sum.FindingCounts == nil {
+						sum.FindingCounts = map[string]int{}
+					}
+					sum.FindingCounts[key]++
+					if sum.FindingCounts[key] <= 3 {
+						sum.Findings = append(sum.Findings, f)
+					}
+				}
 				for _, u := range res.Unknown {
 					sum.Unknown = append(sum.Unknown, u)
 				}
@@ -643,7 +655,7 @@ func (e *Engine) Explore(fn *ssa.Function, workers []*Worker, opts ExploreOpts) 
 						unknownFindings++
 					}
 				}
-				if unknownFindings >= 24 && (len(work) > 0 || active > 0) && !stopped {
+				if unknownFindings >= 36 && (len(work) > 0 || active > 0) && !stopped {
 					sum.Incomplete = append(sum.Incomplete, fmt.Sprintf("exploration stopped after %d counterexample candidates (%d work items left)", len(sum.Findings), len(work)))
 					stopped = true
 				}
